@@ -91,6 +91,9 @@ func (config ConfigDistribution) ExportJson(filename string) error {
 /* -------------------------------------------------------------------------- */
 
 func (config ConfigDistribution) getBool(a interface{}) (bool, bool) {
+  if a == nil {
+    return false, false
+  }
   switch reflect.TypeOf(a).Kind() {
   case reflect.Bool:
     return bool(reflect.ValueOf(a).Bool()), true
@@ -99,6 +102,9 @@ func (config ConfigDistribution) getBool(a interface{}) (bool, bool) {
 }
 
 func (config ConfigDistribution) getFloat(a interface{}) (float64, bool) {
+  if a == nil {
+    return 0, false
+  }
   switch reflect.TypeOf(a).Kind() {
   case reflect.Float64:
     return reflect.ValueOf(a).Float(), true
@@ -107,6 +113,9 @@ func (config ConfigDistribution) getFloat(a interface{}) (float64, bool) {
 }
 
 func (config ConfigDistribution) getInt(a interface{}) (int, bool) {
+  if a == nil {
+    return 0, false
+  }
   switch reflect.TypeOf(a).Kind() {
   case reflect.Float64:
     return int(reflect.ValueOf(a).Float()), true
@@ -115,6 +124,9 @@ func (config ConfigDistribution) getInt(a interface{}) (int, bool) {
 }
 
 func (config ConfigDistribution) getString(a interface{}) (string, bool) {
+  if a == nil {
+    return "", false
+  }
   switch reflect.TypeOf(a).Kind() {
   case reflect.String:
     return reflect.ValueOf(a).String(), true
@@ -203,6 +215,9 @@ func (config ConfigDistribution) GetParametersAsMatrix(t ScalarType, n, m int) (
 }
 
 func (config ConfigDistribution) GetNamedParameter(name string) (interface{}, bool) {
+  if config.Parameters == nil {
+    return 0, false
+  }
   switch reflect.TypeOf(config.Parameters).Kind() {
   case reflect.Map:
     s := reflect.ValueOf(config.Parameters)
@@ -236,7 +251,7 @@ func (config ConfigDistribution) GetNamedParametersAsStrings(name string) ([]str
 }
 
 func (config ConfigDistribution) GetNamedParameterAsScalar(name string, t ScalarType) (Scalar, bool) {
-  if v, ok := config.getFloat(config.Parameters); !ok {
+  if v, ok := config.GetNamedParameterAsFloat(name); !ok {
     return nil, false
   } else {
     return NewScalar(t, v), true
@@ -351,6 +366,17 @@ func (config ConfigDistribution) GetNamedParametersAsIntPairs(name string) ([][2
 
 /* -------------------------------------------------------------------------- */
 
+// Call ImportConfig and report a config that does not have the structure
+// expected by the distribution (e.g. missing parameters) as an error.
+func importConfig(distribution ConfigurableDistribution, config ConfigDistribution, t ScalarType) (err error) {
+  defer func() {
+    if r := recover(); r != nil {
+      err = fmt.Errorf("invalid config file: %v", r)
+    }
+  }()
+  return distribution.ImportConfig(config, t)
+}
+
 func ExportDistribution(filename string, distribution ConfigurableDistribution) error {
   return distribution.ExportConfig().ExportJson(filename)
 }
@@ -361,7 +387,7 @@ func ImportDistribution(filename string, distribution ConfigurableDistribution, 
   if err := config.ImportJson(filename); err != nil {
     return err
   }
-  if err := distribution.ImportConfig(config, t); err != nil {
+  if err := importConfig(distribution, config, t); err != nil {
     return err
   }
   return nil
@@ -373,7 +399,7 @@ func ImportScalarPdfConfig(config ConfigDistribution, t ScalarType) (ScalarPdf, 
   if distribution := NewScalarPdf(config.Name); distribution == nil {
     return nil, fmt.Errorf("unknown distribution: %s", config.Name)
   } else {
-    if err := distribution.ImportConfig(config, t); err != nil {
+    if err := importConfig(distribution, config, t); err != nil {
       return nil, err
     }
     return distribution, nil
@@ -394,7 +420,7 @@ func ImportVectorPdfConfig(config ConfigDistribution, t ScalarType) (VectorPdf, 
   if distribution := NewVectorPdf(config.Name); distribution == nil {
     return nil, fmt.Errorf("unknown distribution: %s", config.Name)
   } else {
-    if err := distribution.ImportConfig(config, t); err != nil {
+    if err := importConfig(distribution, config, t); err != nil {
       return nil, err
     }
     return distribution, nil
@@ -415,7 +441,7 @@ func ImportMatrixPdfConfig(config ConfigDistribution, t ScalarType) (MatrixPdf, 
   if distribution := NewMatrixPdf(config.Name); distribution == nil {
     return nil, fmt.Errorf("unknown distribution: %s", config.Name)
   } else {
-    if err := distribution.ImportConfig(config, t); err != nil {
+    if err := importConfig(distribution, config, t); err != nil {
       return nil, err
     }
     return distribution, nil
